@@ -18,10 +18,10 @@ LEVEL = 'proof'
 EXPECTED_MIN = {'quick': 20, 'thorough': 60}
 EXPLANATION = ('to_tau is traced for every actuator-to-dof index map (nu <= 3, nv <= 4) and proved equal to the reference actuator model for ALL '
                'controls, states, gains, gears, biases and ranges (finite ranges symbolic, unlimited = +-inf partially evaluated); monotonicity and '
-               'saturation are proved relationally on the same code.  The MJCF -> actuator table mapping (load_model) is outside this proof.')
+               'saturation are proved relationally on the same code.  The MjModel -> actuator table mapping of load_model is proved as a premise (real loader on a proxy MjModel); the MuJoCo compiler itself (XML -> MjModel) is outside.')
 TRUSTED = ['the reference actuator model transcribed from the MuJoCo documentation (gain*ctrl + bias, bias scaled by gear: mujoco discussion 754)']
 ASSUMPTIONS = ['floats treated as exact reals', 'actuator tables enumerated: nu in 0..3, nv in 1..4, every map [nu]->[nv]; q_id = qd_id + offset_i with offset in {0,1}',
-               'load_model (MJCF to actuator table: q_id, qd_id, ranges, gains) is NOT covered by proof']
+               'the MuJoCo compiler (XML to MjModel) is not covered by proof; the MjModel -> actuator table mapping of load_model is (premise C11/premise/load_model/mapping)']
 
 
 def _sys(nu, nv, qd_id, q_id, A, unlimited=(), prefix=''):
@@ -178,6 +178,12 @@ def nu0():
 def obligations(tier):
   Q, Th = ('quick', 'thorough'), ('thorough',)
   obs = [nu0()]
+  # "actuator table from MJCF": the loader half of the property -- load_model builds q_id / qd_id from the transmission joint's qpos / dof address, gain, gear, bias (masked by
+  # biastype) and ranges (infinite when unlimited) from the source model, for all field values (C14's load_model contract, carried here as a premise)
+  from verif.contracts import C14c
+  for ob in C14c.obligations(tier):
+    ob.id = ob.id.replace('C14/', 'C11/premise/')
+    obs.append(ob)
   seen = set()
   for nu, nv in [(1, 1), (1, 2), (2, 2), (2, 3), (3, 3), (3, 4)]:
     for qd_id in itertools.product(range(nv), repeat=nu):
